@@ -74,3 +74,60 @@ Proof.
   destruct (_ <? _)%nat; [discriminate|]. injection H as _ <-.
   apply future_markers_above; try assumption; reflexivity.
 Qed.
+
+(* ------------------------------------------------------------------ past markers lie in [1, start] *)
+Lemma in_push_dedup_inv l v x : In x (push_dedup l v) -> In x l \/ x = v.
+Proof.
+  unfold push_dedup. destruct (last_opt l) as [y|]; [destruct (y =? v)|]; intros H; auto;
+    apply in_app_or in H; destruct H as [H|[<-|[]]]; auto.
+Qed.
+
+Lemma past_step_bound s acc i x : In x (past_step s acc i) -> In x acc \/ (x <> 0 /\ x <= s).
+Proof.
+  unfold past_step. destruct (negb (N.land s (N.shiftl 1 i) =? 0)); [|auto].
+  rewrite shiftl1_pow, pow2_pred_ones, ones_lor_pow, N.ldiff_ones_r. fold (cut s (i + 1)).
+  destruct (N.eqb_spec (cut s (i + 1)) 0) as [|Hnz]; cbn [negb]; [auto|].
+  intros H. apply in_push_dedup_inv in H. destruct H as [H| ->]; [auto|]. right. split; [exact Hnz | apply cut_le].
+Qed.
+
+Lemma past_fold_bound s : forall l acc x, In x (fold_left (past_step s) l acc) -> In x acc \/ (x <> 0 /\ x <= s).
+Proof.
+  induction l as [|i l IH]; intros acc x H; cbn [fold_left] in H; [auto|].
+  destruct (IH _ _ H) as [H1|H1]; [|auto]. apply past_step_bound in H1. exact H1.
+Qed.
+
+Lemma nth_firstn_lt {A} (l : list A) n i d : (i < n)%nat -> nth i (firstn n l) d = nth i l d.
+Proof. revert l i; induction n as [|n IH]; intros l i H; [lia|]. destruct l as [|x l]; [destruct i; reflexivity|]. destruct i; [reflexivity|]. cbn [firstn nth]. apply IH. lia. Qed.
+
+Lemma SKIP_pos : forall y, In y SKIP -> 1 <= y.
+Proof. assert (H : forallb (fun y => 1 <=? y) SKIP = true) by (vm_compute; reflexivity). intros y Hy. rewrite forallb_forall in H. apply N.leb_le. apply H. exact Hy. Qed.
+
+Theorem past_markers_bound s si : s <> 0 -> find_max_index s = Some si ->
+  forall m, In m (past_markers s si) -> 1 <= m /\ m <= s.
+Proof.
+  intros Hs Hf m Hm. destruct (find_max_index_pos s Hs) as [Ef Cn]. rewrite Ef in Hf. injection Hf as <-.
+  assert (Hsk : 1 <= nthN SKIP (Nat.pred (count_le SKIP s)) /\ nthN SKIP (Nat.pred (count_le SKIP s)) <= s).
+  { assert (Hlen : (count_le SKIP s <= length SKIP)%nat).
+    { clear. induction SKIP as [|z l IH]; cbn [count_le length]; [lia|]. destruct (s <? z); lia. }
+    assert (Hin : In (nthN SKIP (Nat.pred (count_le SKIP s))) (firstn (count_le SKIP s) SKIP)).
+    { unfold nthN. rewrite <- (nth_firstn_lt SKIP (count_le SKIP s)) by lia. apply nth_In. rewrite firstn_length. lia. }
+    split; [apply SKIP_pos; apply in_firstn' in Hin; exact Hin|].
+    apply (count_le_spec SKIP s SKIP_sorted _ (in_firstn' _ _ _ Hin)). exact Hin. }
+  assert (Hpw : 1 <= N.shiftl 1 (marker_log2 s) /\ N.shiftl 1 (marker_log2 s) <= s).
+  { rewrite shiftl1_pow. unfold marker_log2. destruct (N.log2_spec s ltac:(lia)) as [H1 _]. split; [|exact H1].
+    assert (2 ^ N.log2 s <> 0) by (apply N.pow_nonzero; lia). lia. }
+  unfold past_markers in Hm. apply past_fold_bound in Hm. destruct Hm as [Hm|[H1 H2]]; [|lia].
+  destruct (negb (N.shiftl 1 (marker_log2 s) =? s)).
+  - apply in_push_dedup_inv in Hm. destruct Hm as [Hm| ->]; [|exact Hpw]. 
+    match type of Hm with In _ (if ?c then _ else _) => destruct c end; cbn [In] in Hm; [contradiction | destruct Hm as [<-|Hm]; [exact Hsk | contradiction]].
+  - match type of Hm with In _ (if ?c then _ else _) => destruct c end; cbn [In] in Hm; [contradiction | destruct Hm as [<-|Hm]; [exact Hsk | contradiction]].
+Qed.
+
+Theorem get_marker_versions_past s n E past future : s <> 0 ->
+  get_marker_versions s n E = Some (past, future) -> forall m, In m past -> 1 <= m /\ m <= s.
+Proof.
+  intros Hs H. unfold get_marker_versions in H.
+  destruct (find_max_index s) as [si|] eqn:Fs; [|discriminate].
+  destruct (find_max_index n) as [ni|]; [|discriminate]. destruct (find_max_index E) as [ei|]; [|discriminate].
+  destruct (ei <? ni)%nat; [discriminate|]. injection H as <- _. apply past_markers_bound; assumption.
+Qed.
